@@ -1,7 +1,97 @@
-(** C04 — pinned statements. *)
-From TU Require Import Base C01_Model C04_Model C04_Proofs.
+(** C04 — pinned statements. [build q = Some t]: the constructor of the byte (kind 0), character (1) or
+    BPE (2) tokenizer succeeded on configuration [q]; [None] is the constructor error (pad / prefix /
+    suffix token not among the special tokens). The merge table of a BPE configuration is given in id
+    order (well-formed: distinct keys, ids 0..n-1). *)
+From TU Require Import Base C01_Model C01_Proofs C04_Model C04_Proofs C04_Check.
 Open Scope N_scope.
 
+(** get_vocab has exactly vocab_size entries. *)
 Theorem vocab_len : forall t, N.of_nat (length (get_vocab t)) = vocab_size t.
 Proof. exact vocab_len_l. Qed.
 Print Assumptions vocab_len.
+
+(** id_to_token(id) = get_vocab()[id] (and is defined) for every id below vocab_size, None from vocab_size on. *)
+Theorem id_to_token_spec : forall q t id, build q = Some t ->
+  (id < vocab_size t -> id_to_token t id = nth_error (get_vocab t) (N.to_nat id)
+                        /\ exists tok, id_to_token t id = Some tok)
+  /\ (vocab_size t <= id -> id_to_token t id = None).
+Proof. intros q t id Hb. apply id_to_token_spec_l. eapply build_Built; eauto. Qed.
+Print Assumptions id_to_token_spec.
+
+(** token_to_id maps every UTF-8 token of the vocabulary back to its id, provided the regular tokens are
+    pairwise distinct, merges have at least two bytes, and no special token is spelled like a regular token. *)
+Theorem token_to_id_spec : forall q t id tok s, build q = Some t ->
+  WF t -> Disjoint t -> Forall (fun x => scalars x = true) (k_sv t) -> scalars (k_A t) = true ->
+  nth_error (get_vocab t) (N.to_nat id) = Some tok -> utf8_decode tok = Some s ->
+  token_to_id t s = Some id.
+Proof. intros q t id tok s Hb. apply token_to_id_spec_l. eapply build_Built; eauto. Qed.
+Print Assumptions token_to_id_spec.
+
+(** "tok is valid UTF-8" ([String::from_utf8] succeeds with [s]) means exactly: [tok] is the encoding of the scalar string [s]. *)
+Theorem utf8_decode_sound : forall l s, utf8_decode l = Some s -> utf8s s = l /\ scalars s = true.
+Proof. exact utf8_decode_inv. Qed.
+Print Assumptions utf8_decode_sound.
+
+(** pad, prefix, suffix and unknown ids lie inside the vocabulary and after every regular id. *)
+Theorem special_range : forall q t, build q = Some t ->
+  n_reg t <= b_pad (k_base t) < vocab_size t
+  /\ Forall (fun i => n_reg t <= i < vocab_size t) (b_pre (k_base t))
+  /\ Forall (fun i => n_reg t <= i < vocab_size t) (b_suf (k_base t))
+  /\ (k_kind t = 1 -> exists u, unk_id t (q_unk q) = Some u /\ n_reg t <= u < vocab_size t)
+  /\ (k_kind t <> 1 -> unk_id t (q_unk q) = None).
+Proof. exact special_range_l. Qed.
+Print Assumptions special_range.
+
+(** every special token has exactly one id, it is n_reg + its position: the vocabulary is the regular tokens
+    followed by the special tokens, and the special-id map is a bijection onto [n_reg, vocab_size). *)
+Theorem specials_after_regular : forall q t, build q = Some t ->
+  get_vocab t = k_reg t ++ map utf8s (k_sv t) /\ b_off (k_base t) = n_reg t /\ NoDup (k_sv t)
+  /\ forall s i, sp_id (b_off (k_base t)) (k_sv t) s = Some i <-> sp_tok (b_off (k_base t)) (k_sv t) i = Some s.
+Proof.
+  intros q t Hb. pose proof (build_Built _ _ Hb) as (Hoff & Hnd & _).
+  split; [reflexivity|]. split; [exact Hoff|]. split; [exact Hnd|]. intros s i. split.
+  - intros H. apply sp_id_tok in H. tauto.
+  - apply sp_tok_id. exact Hnd.
+Qed.
+Print Assumptions specials_after_regular.
+
+(** decoding a single regular id yields exactly that token's bytes (as a string; an error iff they are not UTF-8). *)
+Theorem decode_single : forall q t id, build q = Some t -> scalars (k_A t) = true -> id < n_reg t ->
+  decode_ids t [id] false = obind (nth_error (k_reg t) (N.to_nat id)) utf8_decode
+  /\ nth_error (get_vocab t) (N.to_nat id) = nth_error (k_reg t) (N.to_nat id).
+Proof.
+  intros q t id Hb HA Hlt. split; [apply decode_single_l; [eapply build_Built; eauto|exact HA|exact Hlt]|].
+  apply vocab_nth_reg. exact Hlt.
+Qed.
+Print Assumptions decode_single.
+
+(** max_vocab_size truncation keeps a prefix of the merge table. *)
+Theorem bpe_keep_prefix : forall maxv ntok merges, exists r, merges = bpe_keep maxv ntok merges ++ r.
+Proof.
+  intros [m|] ntok merges; cbn [bpe_keep]; [|exists []; symmetry; apply app_nil_r].
+  eexists. symmetry. apply firstn_skipn.
+Qed.
+Print Assumptions bpe_keep_prefix.
+
+Theorem premises_sound : forall t, (wfb t = true -> WF t) /\ (disjointb t = true -> Disjoint t).
+Proof. intros t. split; [apply wfb_spec|apply disjointb_spec]. Qed.
+Print Assumptions premises_sound.
+
+(** The executable statement evaluated on every implementation output holds of the model's own output. *)
+Theorem check_run : forall v, check_C04 v (run_C04 v) = true.
+Proof. exact check_run_l. Qed.
+Print Assumptions check_run.
+
+(** Non-vacuity: a BPE tokenizer with table {ab:0, abc:1, cd:2}, max_vocab_size 262 (keeps two merges),
+    four special tokens: premises hold, ids 256/257 are the merges, 258.. the specials. *)
+Example bpe_witness :
+  let q := {| q_kind := 2; q_padto := None;
+              q_tokens := [[60;117;110;107;62];[60;98;111;115;62];[60;101;111;115;62];[60;112;97;100;62]];
+              q_pad := [60;112;97;100;62]; q_prefix := [[60;98;111;115;62]]; q_suffix := [];
+              q_unk := []; q_alpha := []; q_merges := [[97;98];[97;98;99];[99;100]]; q_maxv := Some 262 |} in
+  exists t, build q = Some t /\ wfb t = true /\ disjointb t = true /\ vocab_size t = 262
+    /\ id_to_token t 256 = Some [97;98] /\ id_to_token t 257 = Some [97;98;99]
+    /\ id_to_token t 258 = Some [60;117;110;107;62] /\ id_to_token t 262 = None
+    /\ token_to_id t [97;98;99] = Some 257 /\ token_to_id t [99;100] = None
+    /\ b_pad (k_base t) = 261 /\ b_pre (k_base t) = [259].
+Proof. cbv zeta. eexists. split; [vm_compute; reflexivity|]. vm_compute. repeat split. Qed.
